@@ -393,9 +393,11 @@ class XPathFunction(XPathToken):
     def _partial_evaluate(self, context: ta.ContextType = None) -> ta.ValueType:
         # Use the methods of the class with this instance (that can be a copy of the token of
         # the expression): the instance attributes are replaced when it becomes a partial function.
-        if self.__class__.evaluate is not XPathToken.evaluate:
-            return self.__class__.evaluate(self, context)
-        return xlist(self.__class__.select(self, context))
+        # A copy without the overrides is used because the methods can call each other.
+        func = copy(self)
+        func.__dict__.pop('evaluate', None)
+        func.__dict__.pop('select', None)
+        return func.evaluate(context)
 
     def _partial_select(self, context: ta.ContextType = None) -> Iterator[ta.ItemType]:
         item = self._partial_evaluate(context)
